@@ -23,7 +23,7 @@ def model(wd, name, nmsgs, wake_first=False):
     return run_tlc(os.path.join(wd, mod + ".tla"), cfg, cwd=wd, workers=8, timeout=3000)
 
 
-KEEP = {"h.scenario", "h.send", "h.sent", "h.senderdrop", "h.senderdropped", "h.item", "h.end", "h.pending", "h.woken",
+KEEP = {"h.scenario", "h.send", "h.sent", "h.senderdrop", "h.senderdropped", "h.item", "h.end", "h.abandon", "h.pending", "h.woken",
         "async.msg", "async.closed", "async.install", "h.scenario.end"}
 
 
@@ -72,6 +72,13 @@ def run(tier):
         scs.append({"id": i, "seed": rnd.randrange(1 << 30), "msgs": msgs,
                     "pre": [rnd.choice([0, m, rnd.randrange(0, m + 1)]) for m in msgs],
                     "consumer": [rnd.choice(["block_on", "manual", "manual", "pool"]) for _ in range(n)]})
+        if i % 5 == 2 and n >= 2:
+            # one consumer walks away from its stream (after at most one item) while the sender goes on and later
+            # closes: the other streams must not notice
+            k = rnd.randrange(n)
+            scs[-1]["consumer"][k] = "abandon"
+            scs[-1]["msgs"][k] = max(3, scs[-1]["msgs"][k] % 40)
+            scs[-1]["pre"][k] = rnd.choice([0, 1])
         if i % 4 == 1:
             # widen the windows: between queueing a route and waking the routing thread; inside the routing thread
             sites = ["async.to_stream.queued", "async.msg", "async.install", "async.closed"]
@@ -115,6 +122,10 @@ def run(tier):
             else:
                 for st in o["streams"]:
                     want = list(range(1, sc["msgs"][st["s"] - 1] + 1))
+                    if st["consumer"] == "abandon":
+                        if st["got"] not in ([], [1]):
+                            why = "abandoned stream %d yielded %s" % (st["s"], st["got"])
+                        continue
                     if st["stuck"]:
                         why = "stream %d: poll returned Pending and the task was never woken (8 s)" % st["s"]
                     elif sc.get("burst") and sc["delay"][st["s"] - 1] == 0 and st.get("elapsed_ms", 0) > 4000:
